@@ -10,6 +10,17 @@ def orat (s : String) : Option Rat := if s == "nan" then none else rat? s
 def orats (s : String) : List (Option Rat) := (splitTok s ",").map orat
 def odata (s : String) : Data := (splitTok s ";").map orats
 
+def xr (s : String) : XR :=
+  if s == "nan" then .nan else if s == "inf" then .pinf else if s == "-inf" then .ninf
+  else match rat? s with
+    | some r => .fin r
+    | none => .nan
+def xdata (s : String) : List (List XR) := (splitTok s ";").map fun row => (splitTok row ",").map xr
+def xat (d : List (List XR)) (i k : Nat) : XR := (d.getD i []).getD k .nan
+/-- is some float→int conversion undefined over the `n × t` samples? -/
+def xUndef (sc rm : XR) (nb : Int) (d : List (List XR)) (n t : Nat) : Bool :=
+  (List.range n).any fun i => (List.range t).any fun k => (symbolX sc rm nb (xat d i k)).isNone
+
 def accKey (a : Acc) : Nat × Int × Nat × Nat := (a.arr, a.off, a.w, if a.wr then 1 else 0)
 
 def keyLe (a b : Nat × Int × Nat × Nat) : Bool :=
@@ -78,6 +89,22 @@ def answer (toks : List String) : String :=
       showTrace (tmiSizes n.toNat! t.toNat! n.toNat! t.toNat! nbn) 8
         (tmiTrace n.toNat! t.toNat! nbn (fun i k => symbol (orat sc) (orat rm) nbn (o.at i k))
           (fun i k => symbol (orat sc) (orat rm) nbn (s.at i k)))
+  | ["tracex", "mi", n, t, nb, sc, rm, d] =>
+      -- data / scaling / range_min with infinities (`inf`, `-inf`, `nan` tokens)
+      let dd := xdata d
+      let nbn := nb.toNat!
+      if xUndef (xr sc) (xr rm) nbn dd n.toNat! t.toNat! then "undefined-conversion" else
+      showTrace (miSizes n.toNat! t.toNat! nbn) 5
+        (miTrace n.toNat! t.toNat! nbn (fun i k => (symbolX (xr sc) (xr rm) nbn (xat dd i k)).getD 0))
+  | ["tracex", "tmi", n, t, nb, sc, rm, dO, dS] =>
+      let o := xdata dO
+      let s := xdata dS
+      let nbn := nb.toNat!
+      if xUndef (xr sc) (xr rm) nbn o n.toNat! t.toNat! || xUndef (xr sc) (xr rm) nbn s n.toNat! t.toNat!
+      then "undefined-conversion" else
+      showTrace (tmiSizes n.toNat! t.toNat! n.toNat! t.toNat! nbn) 8
+        (tmiTrace n.toNat! t.toNat! nbn (fun i k => (symbolX (xr sc) (xr rm) nbn (xat o i k)).getD 0)
+          (fun i k => (symbolX (xr sc) (xr rm) nbn (xat s i k)).getD 0))
   | ["trace", "vcfb", n, i] => showTrace (cfbSizes n.toNat!) 3 (vcfbTrace n.toNat! i.toInt!)
   | ["trace", "ecfb", n] => showTrace (cfbSizes n.toNat!) 3 (ecfbTrace n.toNat!)
   | ["call", "spearman", mm, mt, m, t] =>
